@@ -168,6 +168,20 @@ def do_op(sim, m, op, nid, fail, rng):
                     return fail("history/reset-grew", "history count grew over a reset")
                 m.hist = m.hist[:n]
         evs = [e for e in evs if not (e[0] == "tx" and int(e[2], 16) == 0x700 + nid)]
+    elif k == "reinit":
+        # the documented restart CONodeStop / CONodeInit / CONodeStart on the RAM as it is: no error is active afterwards, so the
+        # register is empty and the counters are zero; the history may be kept or cleared, but count and entries have to agree
+        sim.cmd("reinit")
+        evs = sim.cmd("start")
+        m.mode = 2
+        m.active = [False] * len(m.table)
+        if m.depth > 0:
+            r = sim.ret("rd 1003 0 1")
+            n = int(r[1], 16)
+            if n > len(m.hist):
+                return fail("history/restart-grew", "history count grew over a restart")
+            m.hist = m.hist[:n]
+        evs = [e for e in evs if not (e[0] == "tx" and int(e[2], 16) == 0x700 + nid)]
     elif k == "id":
         if m.mode not in (2, 3):
             return True
@@ -286,6 +300,8 @@ def work(item, ctx):
                             ops.append(("histread",))
                         elif x < 0.92:
                             ops.append(("nmt", rng.choice([1, 2, 128, 130])))
+                        elif x < 0.94:
+                            ops.append(("reinit",))
                         else:
                             ops.append(("id", rng.choice([0x80000080 + nid, 0x80 + nid, 0x80000090, 0x90, 0x100, 0x7F, 0x80000000 | 0x7F, 0xA0012345, 0x20012345, 0xA0000080 + nid, 0x20000080 + nid])))
                     if not run_history(res, sim, cfg, nid, table, depth, ops, rng, sample=(item[1] == 0 and h == 0)):
